@@ -321,6 +321,15 @@ pub fn make(p: Params) -> crate::ctl::ScenarioFn {
                     );
                 }
             }
+            if faulty {
+                // an open_stream that returned an error because of the injected fault may have put its SYN on the wire
+                // whole (the error came with the flush): its id is known to nobody — at most one such SYN per opener
+                let known_ids: Vec<u32> = attempts.iter().flatten().filter_map(|s| match s { Sub::Syn(i) | Sub::Psh(i, _) => Some(*i), _ => None }).collect();
+                let orphan_syns = real.iter().filter(|f| f.cmd == SYN && !known_ids.contains(&f.id)).count();
+                if orphan_syns <= p.openers {
+                    accounted += orphan_syns;
+                }
+            }
             if accounted != real.len() {
                 out.viol(
                     "C11:unexpected-frames",
